@@ -74,12 +74,18 @@ type Ctx struct {
 	inputSlices   []inputSlice
 	inDefer       int
 	noName        int
+	inlineKey     string
+
+	footprint      []modTarget
+	footprintReady bool
+	freshRefs      map[string]bool
+	curPos         token.Pos
 }
 
 func newCtx(prog *Program, pkg *Pkg, mode Mode) *Ctx {
 	return &Ctx{prog: prog, pkg: pkg, mode: mode, heapInit: map[string]Term{}, heapLeaf: map[string]string{},
 		specDefined: map[string]bool{}, strLits: map[string]Term{}, trusted: map[string]bool{}, counters: map[string]int{}, uf: map[string]bool{},
-		usedContracts: map[string]bool{}, usedLemmas: map[string]bool{}, famRange: map[string]string{}, famRangeHi: map[string]string{},
+		freshRefs: map[string]bool{}, usedContracts: map[string]bool{}, usedLemmas: map[string]bool{}, famRange: map[string]string{}, famRangeHi: map[string]string{},
 		famHasRange: map[string]bool{}, boxedVars: map[types.Object]bool{}, deferFlags: map[*ast.DeferStmt]*types.Var{}, entryParams: map[string]Val{}}
 }
 
@@ -138,7 +144,7 @@ func (c *Ctx) needStr() {
 	c.raw("(declare-fun str.empty () Str)")
 	if c.mode == ModeBV {
 		c.raw("(assert (= (str.len str.empty) #x0000000000000000))")
-		c.raw("(assert (forall ((s Str)) (! (and (bvsle #x0000000000000000 (str.len s)) (bvsle (str.len s) #x4000000000000000)) :pattern ((str.len s)))))")
+		c.raw("(assert (forall ((s Str)) (! (and (bvsle #x0000000000000000 (str.len s)) (bvsle (str.len s) #x1000000000000000)) :pattern ((str.len s)))))")
 		c.raw("(assert (forall ((s Str)) (! (=> (= (str.len s) #x0000000000000000) (= s str.empty)) :pattern ((str.len s)))))")
 	} else {
 		c.raw("(assert (= (str.len str.empty) 0))")
